@@ -263,6 +263,26 @@ pub fn run_c14(out: &mut Out, tier: &str, seed: u64) {
         many_cases(out, &mut rng, &g, &bad, false);
         iter_cases(out, &bad, false);
     }
+    // the enumerated number grammar (integer parts of every length that matters to the 32-byte chunks of the number
+    // skipper x fraction / exponent shapes, well-formed and damaged) as the selected value and as a member in front of it
+    {
+        let toks = gen::number_grammar();
+        let k = vec![PathElem::Key("k".into())];
+        let step = if tier == "thorough" { 1 } else { 3 };
+        for (i, t) in toks.iter().enumerate() {
+            if i % step != 0 && !(t.len() >= 30 && t.matches('.').count() >= 2) {
+                continue;
+            }
+            out.count("number-grammar");
+            get_variants(out, format!("{{\"k\":{t}}}").as_bytes(), &k, false);
+            get_variants(out, format!("{{\"p\":{t},\"k\":true}}").as_bytes(), &k, false);
+            get_variants(out, format!("[{t} ,[7]]").as_bytes(), &[PathElem::Idx(1)], false);
+            if i % (4 * step) == 0 {
+                iter_cases(out, format!("[1,{t},2]").as_bytes(), false);
+                iter_cases(out, format!("{{\"a\":{t},\"b\":2}}").as_bytes(), false);
+            }
+        }
+    }
     // well-formed documents that repeat member names x path sets: whatever get_many hands out is one well-formed
     // value inside the input (F37: a repeated name ended the walk early and cut the text of an enclosing path)
     for i in 0..ndocs / 3 {
